@@ -107,7 +107,7 @@ fn run(args: &[String]) {
             "C15" => 25.0,
             "C16" => 15.0,
             "C17" => 20.0,
-            "C18" => 25.0,
+            "C18" => 8.0,
             "C19" => 40.0,
             "C20" => 30.0,
             _ => 1.0,
